@@ -1287,10 +1287,13 @@ class Converter:
             self._source_of(loop_stmt),
         )
         self._current_fn.append_parameter(onnx_loop_var)
-        self._bind(
-            python_loop_var_name,
-            values.SymbolValue(onnx_loop_var, self._source_of(loop_stmt)),
-        )
+        if isinstance(loop_stmt, ast.For):
+            # A while loop has no loop variable: binding the placeholder name "infinite_loop"
+            # would capture a user variable of that name inside the loop body.
+            self._bind(
+                python_loop_var_name,
+                values.SymbolValue(onnx_loop_var, self._source_of(loop_stmt)),
+            )
 
         self._current_fn.append_parameter(i_cond_var)
 
